@@ -1137,6 +1137,7 @@ func c02R7(c *Ctx, p *Prog, rule string) {
 		return
 	}
 	// the candidate capturers stand on the files next to the pushed pawn: the one-file shifts must not wrap
+	pa4(c, p, rule+".neighbours", inFuncs("board.(*Board).CanEnPassant"))
 	if n := pa5(c, p, rule+".neighbours", inFuncs("board.(*Board).CanEnPassant")); n == 0 {
 		c.OkTrivial(rule+".neighbours", "none", fn.Pos(), "CanEnPassant contains no one-file bitboard shift (the candidate capturers come from an attack pattern)")
 	}
